@@ -79,6 +79,38 @@ def string_heavy_frame(r, g, marker):
     return d, gen.encode_frame(d)
 
 
+_STR_PROPS = ['content_type', 'content_encoding', 'correlation_id',
+              'reply_to', 'expiration', 'message_id', 'message_type',
+              'user_id', 'app_id']
+
+
+def alias_header(r, frames):
+    """A content header whose property values equal those of an earlier
+    header of this connection but sit under different property names of the
+    same wire type (content_type='gzip' vs content_encoding='gzip',
+    priority=2 vs delivery_mode=2): same value bytes, different flags."""
+    hs = [f for f in frames if f['k'] == 'header' and f['props']]
+    if not hs:
+        return None
+    src = r.choice(hs[-6:])
+    props = {}
+    shift = r.randint(1, len(_STR_PROPS) - 1)
+    for name, v in src['props'].items():
+        if name in _STR_PROPS:
+            new = _STR_PROPS[(_STR_PROPS.index(name) + shift) %
+                             len(_STR_PROPS)]
+            props[new] = v
+        elif name == 'priority' and v in (1, 2):
+            props['delivery_mode'] = v
+        elif name == 'delivery_mode':
+            props['priority'] = v
+        else:
+            props[name] = v
+    if props == src['props']:
+        return None
+    return dict(src, props=props)
+
+
 def table_heavy_frame(r, g, marker):
     """A method or header frame whose table has several keys that no other
     frame of the run uses (distinct keys drive per-key state)."""
@@ -258,7 +290,17 @@ def gen_conn(r, g, population, cfg):
         datas.append(gen.encode_frame(d))
     for _ in range(nframes):
         cfg['marker'] += 1
-        if frames and r.random() < 0.08:
+        alias = None
+        if frames and r.random() < 0.10:
+            alias = alias_header(r, frames)
+        if alias is not None:
+            # same property VALUES as an earlier header, under other names
+            d = alias
+            try:
+                data = gen.encode_frame(d)
+            except Exception:
+                d, data = frames[-1], datas[-1]
+        elif frames and r.random() < 0.08:
             # the very same frame again (identical bytes back to back)
             d, data = frames[-1], datas[-1]
         elif cfg.get('long') and r.random() < 0.7:
